@@ -980,7 +980,8 @@ FairStalled == Init /\ [][NextFair \/ (~GInt /\ \E f \in Filters : Stall(f))]_va
 
 (* The same with faults: a killed filter is eventually restarted, a stalled one eventually resumes. *)
 FairFault == Init /\ [][NextFair \/ (~GInt /\ Fault)]_vars
-               /\ (\A f \in Filters : SF_vars(PFilter(f)) /\ TFair(f) /\ WF_vars(Restart(f)) /\ WF_vars(Resume(f))) /\ WF_vars(PNet)
+               /\ (\A f \in Filters : SF_vars(PFilter(f)) /\ TFair(f)) /\ (\A f \in Victims : WF_vars(Restart(f)) /\ WF_vars(Resume(f)))
+               /\ WF_vars(PNet)
 
 -----------------------------------------------------------------------------
 (* Properties *)
@@ -1020,7 +1021,10 @@ ReachK(k, R) == LET add == {g \in Filters : k \in ObeyExit[g] /\ \E f \in R : k 
                 IN IF add = {} THEN R ELSE ReachK(k, R \cup add)
 ReachX == UNION {ReachK(ExitKind[f], {f}) : f \in Exiters}
 C08_NoSpuriousExit == \A f \in Filters : Closing(f) => f \in ReachX
-C08_AllEnded == \A f \in ReachX : pc[f] = "done"
+\* (an origin that has produced its MaxSeq frames is parked for good - the horizon of the model, not a filter that keeps running:
+\*  it polls nothing any more and cannot see an exit message that arrives later)
+Exhausted(f) == IsOrigin(f) /\ pc[f] = "gen" /\ oseq[f] > MaxSeq
+C08_AllEnded == \A f \in ReachX : pc[f] = "done" \/ Exhausted(f)
 C08_WholePipeline == <>[]C08_AllEnded
 
 (* Reachability goals: "invariants" that are meant to be FALSE somewhere - TLC's counterexample is the shortest schedule that gets
